@@ -1,12 +1,16 @@
-def I(name, entry=None, **kw):
-    d = dict(name=name, entry=entry or 'h_' + name, unwind=10, timeout_s=300, mem_gb=6, safety_is_property=True, object_bits=12, cdefs={'VP_UTF8_LATIN1': 1}, bound=''); d.update(kw); return d
+def DOMLOOPS(n):
+    """sibling walks of the real DOM helpers: <= n-1 children per element (checked by the unwinding assertions)"""
+    return {r'^_ZN5QXmpp7Private17firstChildElementERK11QDomElement11QStringView': n, r'^_ZN5QXmpp7Private18nextSiblingElementERK11QDomElement11QStringView': n}
+def I(name, entry=None, dom=8, **kw):
+    d = dict(loop_bounds=DOMLOOPS(dom), name=name, entry=entry or 'h_' + name, unwind=10, timeout_s=300, mem_gb=6, safety_is_property=True, object_bits=12, cdefs={'VP_UTF8_LATIN1': 1}, bound=''); d.update(kw); return d
 def DOMLOOPS(n):
     """sibling walks of the real DOM helpers: <= n-1 children per element (checked by the unwinding assertions)"""
     return {r'^_ZN5QXmpp7Private17firstChildElementERK11QDomElement11QStringView': n, r'^_ZN5QXmpp7Private18nextSiblingElementERK11QDomElement11QStringView': n}
 SM_TUS = ['src/base/QXmppStreamManagement.cpp', 'src/base/QXmppUtils.cpp', 'src/base/QXmppStanza.cpp']
 SASL_TUS = ['src/base/QXmppSasl.cpp', 'src/base/QXmppStreamManagement.cpp', 'src/base/QXmppUtils.cpp', 'src/base/QXmppStanza.cpp']
-SASL = ['sasl_auth', 'sasl_challenge', 'sasl_response', 'sasl_success', 'sasl_failure', 'sasl2_challenge', 'sasl2_response', 'sasl2_failure', 'sasl2_abort', 'sasl2_continue', 'sasl2_success',
-        'sasl2_feature', 'sasl2_authenticate', 'bind2_feature', 'bind2_request', 'bind2_bound', 'fast_feature', 'fast_token_request', 'fast_request']
+# instance -> bound of the sibling walks (max children of the input tree and of the serialized tree + 2)
+SASL = dict(sasl_auth=4, sasl_challenge=4, sasl_response=4, sasl_success=4, sasl_failure=5, sasl2_challenge=4, sasl2_response=4, sasl2_failure=5, sasl2_abort=4, sasl2_continue=5, sasl2_success=8,
+            sasl2_feature=6, sasl2_authenticate=8, bind2_feature=5, bind2_request=6, bind2_bound=5, fast_feature=5, fast_token_request=4, fast_request=4)
 MODELS = ['qt_core.c', 'qt_list.c', 'c02_dom.c', 'c02_env.c']
 SPEC = dict(
     property='C02',
@@ -14,7 +18,7 @@ SPEC = dict(
         dict(name='sm', harness='h_sm.cpp', tus=SM_TUS, models=MODELS, loop_bounds=DOMLOOPS(5),
              instances=[I(e) for e in ['sm_enable', 'sm_enabled', 'sm_resume', 'sm_resumed', 'sm_ack', 'sm_request', 'sm_failed', 'sm_failed_safe']]),
         dict(name='sasl', harness='h_sasl.cpp', tus=SASL_TUS, models=MODELS, loop_bounds=DOMLOOPS(8),
-             instances=[I(e) for e in SASL]),
+             instances=[I(e, dom=SASL[e]) for e in SASL]),
     ],
     bounds=[], assumptions=[], outside=[],
 )
